@@ -498,12 +498,24 @@ pub fn check_c09(tier: Tier) -> i32 {
       items.push((c, true, 1));
     }
   }
-  par_for_each(&items, |_, (c, sync, part)| match (part, sync) {
+  let go = |(c, sync, part): &(Cfg, bool, u8)| match (part, sync) {
     (0, true) => c09_files::<sync::Arena>(&run, c, thorough),
     (0, false) => c09_files::<unsync::Arena>(&run, c, thorough),
     (_, true) => c09_readonly::<sync::Arena>(&run, c, if thorough { 3 } else { 2 }),
     (_, false) => c09_readonly::<unsync::Arena>(&run, c, if thorough { 3 } else { 2 }),
-  });
+  };
+  // every open maps a file: spread over single-threaded child processes (shard.rs)
+  if crate::shard::child().is_some() {
+    for (i, it) in items.iter().enumerate() {
+      if crate::shard::mine(i) {
+        go(it);
+      }
+    }
+    return crate::shard::finish_child(&run);
+  }
+  if let Err(code) = crate::shard::run_children(&run, "C09", tier, items.len().min(2 * crate::report::nthreads())) {
+    return code;
+  }
   run.sample(|| json!({"file": "valid Optimistic arena file (capacity 200): live 24-byte block, one free segment, cursor rewound so that non-zero stale bytes lie above it", "mutant": "identification byte +4 (magic version, low byte) set to 0x03", "open": "map_mut with capacity = same, expecting the stored free-list kind and magic version", "expected": "refused, file bytes unchanged"}));
   run.rule("6 valid files (3 free-list kinds x reserved {0,5}), plus 3 whose arena starts at file offset 4096, x [each of the 8 identification bytes x 255 other values] + every truncation length 0..=prefix+8 + arbitrary files of length 0..=64 (3 fills) + garbage cursors, x 4 open variants x capacity option x expected (free list, magic version); every refused open is compared byte for byte with the file before; read-only sessions: every sequence of <= 2 (3) calls of the safe mutating API on map / map_copy_read_only arenas; evaluations = opens + sessions");
   run.set("bounds", json!({"files": 6, "readonly_session_depth": if thorough { 3 } else { 2 }, "capacity_options": ["absent", "same", "+64"]}));
@@ -758,11 +770,13 @@ fn c05_case_t<A: Subject>(run: &Run, cfg: &Cfg, st: &Start, word: &[Op], cut: us
   true
 }
 
-fn c05_cell<A: Subject>(run: &Run, cfg: &Cfg, alphabet: &[Op], depth: usize, thorough: bool) {
+/// one work item: the histories of one cell from one start state whose first symbol is `first`
+fn c05_cell<A: Subject>(run: &Run, cfg: &Cfg, alphabet: &[Op], depth: usize, thorough: bool, start: usize, first: usize) {
   let n = alphabet.len();
   let starts = [Start::fresh(), fragmented_starts()[1].clone(), fragmented_starts()[4].clone()];
-  for st in &starts {
+  for st in &starts[start..start + 1] {
     let mut idx = vec![0usize; depth];
+    idx[0] = first;
     loop {
       let word: Vec<Op> = idx.iter().map(|i| alphabet[*i]).collect();
       let mut disabled_at = None;
@@ -779,7 +793,13 @@ fn c05_cell<A: Subject>(run: &Run, cfg: &Cfg, alphabet: &[Op], depth: usize, tho
           v
         } else {
           let all8: Vec<Mode> = Mode::ALL.iter().chain(Mode::PB.iter()).cloned().collect();
-          vec![(if h % 4 == 0 { Mode::MapMutPb } else { Mode::MapMut }, [CapOpt::Same, CapOpt::Absent, CapOpt::Plus64][h % 3], h % 2 == 0, h % 5 == 0), (all8[1 + h % 7], [CapOpt::Same, CapOpt::Absent, CapOpt::Plus64][(h / 3) % 3], h % 2 == 1, false)]
+          let caps = [CapOpt::Same, CapOpt::Absent, CapOpt::Plus64];
+          vec![
+            (if h % 4 == 0 { Mode::MapMutPb } else { Mode::MapMut }, caps[h % 3], h % 2 == 0, h % 5 == 0),
+            (all8[1 + h % 7], caps[(h / 3) % 3], h % 2 == 1, false),
+            (all8[(h / 2) % 8], caps[(h + 1) % 3], h % 3 == 0, h % 7 == 0),
+            (all8[(3 + h) % 8], caps[(h + 2) % 3], h % 3 == 1, false),
+          ]
         };
         for (k, (mode, capo, flush, create)) in variants.into_iter().enumerate() {
           // the flavour that has `truncate`: every third case first resizes the arena
@@ -803,15 +823,16 @@ fn c05_cell<A: Subject>(run: &Run, cfg: &Cfg, alphabet: &[Op], depth: usize, tho
       }
       let mut done = false;
       loop {
+        // the first symbol is fixed for this work item
+        if k == 0 {
+          done = true;
+          break;
+        }
         idx[k] += 1;
         if idx[k] < n {
           break;
         }
         idx[k] = 0;
-        if k == 0 {
-          done = true;
-          break;
-        }
         k -= 1;
       }
       if done {
@@ -833,9 +854,6 @@ pub fn check_c05(tier: Tier) -> i32 {
   for fl in Fl::ALL {
     for reserved in [0u32, 5] {
       for sync in [true, false] {
-        if !thorough && reserved == 5 && !sync {
-          continue;
-        }
         // the `unify` option is irrelevant for files (always unified): alternate it over the cells
         let mut c = Cfg::new(fl, Backend::File, (reserved == 0) != sync, 256 + reserved + 3);
         c.reserved = reserved;
@@ -845,25 +863,45 @@ pub fn check_c05(tier: Tier) -> i32 {
     }
   }
   // arenas that start at a page-aligned offset of their file (foreign bytes in front of and behind the window)
-  let depth_off = if thorough { 3 } else { 2 };
+  let depth_off = 3;
   let mut items: Vec<(Cfg, bool, usize)> = items.into_iter().map(|(c, s)| (c, s, depth)).collect();
-  for fl in Fl::ALL {
+  for (i, fl) in Fl::ALL.into_iter().enumerate() {
     for sync in [true, false] {
+      let _ = i;
       let mut c = Cfg::new(fl, Backend::File, true, 256);
       c.file_offset = 4096;
       c.magic = 9;
       items.push((c, sync, depth_off));
     }
   }
-  par_for_each(&items, |_, (c, sync, depth)| {
-    if *sync {
-      c05_cell::<sync::Arena>(&run, c, &alphabet, *depth, thorough)
-    } else {
-      c05_cell::<unsync::Arena>(&run, c, &alphabet, *depth, thorough)
+  let mut work = vec![];
+  for (ci, _) in items.iter().enumerate() {
+    for start in 0..3 {
+      for first in 0..alphabet.len() {
+        work.push((ci, start, first));
+      }
     }
-  });
+  }
+  // every case maps and unmaps several files: threads of one process serialise on the address-space lock, so
+  // the work list is spread over single-threaded child processes (shard.rs)
+  if crate::shard::child().is_none() {
+    if let Err(code) = crate::shard::run_children(&run, "C05", tier, crate::report::nthreads()) {
+      return code;
+    }
+  } else {
+    let work: Vec<(usize, usize, usize)> = work.into_iter().enumerate().filter(|(i, _)| crate::shard::mine(*i)).map(|(_, w)| w).collect();
+    par_for_each(&work, |_, &(ci, start, first)| {
+      let (c, sync, depth) = &items[ci];
+      if *sync {
+        c05_cell::<sync::Arena>(&run, c, &alphabet, *depth, thorough, start, first)
+      } else {
+        c05_cell::<unsync::Arena>(&run, c, &alphabet, *depth, thorough, start, first)
+      }
+    });
+    return crate::shard::finish_child(&run);
+  }
   run.sample(|| json!({"cfg": "sync Pessimistic file arena, reserved 5", "start": "full-2eq", "history": "B(7) D0 | close (no flush) + map_mut without capacity | B(40)", "checked": "state tuple, free list, bytes below the cursor, then the continuation B(40) on the reopened arena vs. on a twin that was never closed, shadow heap carried across the reopen"}));
-  run.rule("every history of depth 3 over the stated alphabet from 3 start states, cut at every position 0..=3 by close (with / without flush) + reopen; quick: 2 reopen variants per (history, cut) rotating over the 4 modes x 3 capacity options x create flag, thorough: all 12 mode x capacity variants; writable reopens continue the history against a never-closed twin (per-step observation equality) under the shadow / zero / policy / accounting oracles; read-only reopens must refuse allocation and leave the file untouched; 6 more cells place the arena at file offset 4096 (histories of depth 2, thorough 3) with foreign bytes in front of and behind its window, which every reopen must leave alone; evaluations = reopens");
+  run.rule("every history of depth 3 over the stated alphabet from 3 start states, cut at every position 0..=3 by close (with / without flush) + reopen; quick: 4 reopen variants per (history, cut) rotating over the 4 modes x 3 capacity options x create flag, thorough: all 12 mode x capacity variants; writable reopens continue the history against a never-closed twin (per-step observation equality) under the shadow / zero / policy / accounting oracles; read-only reopens must refuse allocation and leave the file untouched; 6 more cells place the arena at file offset 4096 with foreign bytes in front of and behind its window, which every reopen must leave alone; evaluations = reopens");
   run.set("bounds", json!({"depth": depth, "depth_of_offset_cells": depth_off, "alphabet": alphabet.iter().map(|o| o.short()).collect::<Vec<_>>(), "cells": items.len()}));
   run.finish()
 }
